@@ -285,6 +285,13 @@ func init() {
 			return false
 		}},
 		rule{name: "schema:bad-default", kinds: []string{"Schema"}, expect: unless(optNoDefaults), apply: replaceSchema(`{"type":"integer","default":"notanint"}`)},
+		// a default is checked against its own schema as a plain value, wherever the schema sits: there is
+		// no request or response direction in a default, so a required read-only (write-only) member it
+		// lacks is a violation and one it has is none
+		rule{name: "schema:default-lacks-required-readonly", kinds: []string{"Schema"}, expect: unless(optNoDefaults), apply: replaceSchema(`{"type":"object","required":["id"],"properties":{"id":{"type":"integer","readOnly":true}},"default":{}}`)},
+		rule{name: "schema:default-lacks-required-writeonly", kinds: []string{"Schema"}, expect: unless(optNoDefaults), apply: replaceSchema(`{"type":"object","required":["pw"],"properties":{"pw":{"type":"string","writeOnly":true}},"default":{}}`)},
+		rule{name: "schema:default-has-readonly-member", kinds: []string{"Schema"}, expect: func(int) string { return "accept" }, apply: replaceSchema(`{"type":"object","properties":{"id":{"type":"integer","readOnly":true}},"default":{"id":1}}`)},
+		rule{name: "schema:default-has-writeonly-member", kinds: []string{"Schema"}, expect: func(int) string { return "accept" }, apply: replaceSchema(`{"type":"object","properties":{"pw":{"type":"string","writeOnly":true}},"default":{"pw":"x"}}`)},
 		rule{name: "schema:bad-example", kinds: []string{"Schema"}, expect: unless(optNoExamples), apply: replaceSchema(`{"type":"integer","example":"notanint"}`)},
 		rule{name: "schema:bad-pattern", kinds: []string{"Schema"}, expect: unless(optNoPattern), apply: replaceSchema(`{"type":"string","pattern":"("}`)},
 		rule{name: "schema:unknown-format", kinds: []string{"Schema"}, expect: onlyIf(optFormat), apply: replaceSchema(`{"type":"string","format":"no-such-format"}`)},
@@ -770,6 +777,10 @@ func check(c Case) (o h.Outcome) {
 		if merr != nil {
 			if r.wholesale && c.Examples {
 				o.Class("accept-direction-not-asserted")
+				return
+			}
+			if strings.HasPrefix(c.Rule, "schema:default-has-") {
+				o.Fail("conforming-variant-rejected:"+c.Rule+"@"+loc, "a change that keeps the document conforming (%s at /%s) makes it rejected under options %s: %v\nmutant=%s", c.Rule, strings.Join(n.Ptr, "/"), optNames(c.Opts), merr, mb)
 				return
 			}
 			o.Fail("option-ineffective:"+c.Rule+"@"+loc, "options %s should switch off the check for %s (at /%s) but the document is rejected: %v\nmutant=%s", optNames(c.Opts), c.Rule, strings.Join(n.Ptr, "/"), merr, mb)
